@@ -45,8 +45,14 @@ def _path_name(func, expr):
             return _path_name(func, d[0])
         return None
     if isinstance(expr, ast.Call) and call_name(expr).endswith("path.join") and expr.args:
-        return H.str_const(expr.args[-1])
+        last = expr.args[-1]
+        if isinstance(last, ast.Name) and last.id in _MOD_CONSTS and not H.defs_of(func, last.id):
+            last = _MOD_CONSTS[last.id]          # a module-level file-name constant
+        return H.str_const(last)
     return None
+
+
+_MOD_CONSTS: dict = {}
 
 
 def _open_of(func, call, fh):
@@ -70,8 +76,11 @@ def run(db: ProgramDB, chk) -> None:
     check_reset_before_accumulate(db, chk, "C19.R5-recomputation-on-a-restored-graph")    # restore -> critical_path() again must rebuild, not extend, the restored edge set
     m = db.mod(MOD)
     data_cls = m.cls("_CPGraphData")
-    save = m.func("CPGraph.save")
-    restore = m.func("restore_cpgraph")
+    # private helpers are inlined and loops over literal tuples unrolled: the rules read the code as if it were written out
+    save = H.unroll_literal_loops(m, H.inline_helpers(m, m.func("CPGraph.save")))
+    restore = H.unroll_literal_loops(m, H.inline_helpers(m, m.func("restore_cpgraph")))
+    global _MOD_CONSTS
+    _MOD_CONSTS = m.constants
     init = m.func("CPGraph.__init__")
     chk.analysed_add("functions", [f"{MOD}:{q}" for q in ("_CPGraphData", "CPGraph.save", "restore_cpgraph", "CPGraph.__init__")])
 
